@@ -245,7 +245,7 @@ def run(tier):
         import json as _json
         import prop_c20
         prop_c20._link_pkgs()
-        nr = common.build_runner('c19names', {'dora-frontend': 'dora-frontend', 'dora-bytecode': 'dora-bytecode'}, lock=True)
+        nr = common.build_runner('c19names', {'dora-frontend': 'dora-frontend', 'dora-bytecode': 'dora-bytecode', 'dora-compiler': 'dora-compiler'}, lock=True)
         budget = 5000 if tier == 'quick' else 60000
         rc2, out2, err2, wall2 = common.run_cmd([nr, 'search', str(common.seed()), str(budget)], timeout=budget / 1000 + 600)
         names_info = _json.loads(out2.strip().split('\n')[-1])
@@ -293,7 +293,7 @@ def replay(rp):
     if fi.get('kind') == 'names':
         import prop_c20
         prop_c20._link_pkgs()
-        nr = common.build_runner('c19names', {'dora-frontend': 'dora-frontend', 'dora-bytecode': 'dora-bytecode'}, lock=True)
+        nr = common.build_runner('c19names', {'dora-frontend': 'dora-frontend', 'dora-bytecode': 'dora-bytecode', 'dora-compiler': 'dora-compiler'}, lock=True)
         rc, out, err, _ = common.run_cmd([nr, 'replay', fi['text_hex']])
         print(out.strip())
         return 1 if rc != 0 else 0
